@@ -711,10 +711,26 @@ func (c *Client) processPubrel(id packet.ID) error {
 		return c.die(err, true)
 	}
 
+	// prepare pubcomp packet
+	pubcomp := packet.NewPubcomp()
+	pubcomp.ID = id
+
 	// get packet from store
 	publish, ok := pkt.(*packet.Publish)
 	if !ok {
-		return nil // ignore a wrongly sent Pubrel packet
+		// ignore a pubrel with an invalid id
+		if id == 0 {
+			return nil
+		}
+
+		// acknowledge a pubrel for an unknown packet (the pubcomp of an
+		// earlier attempt may have been lost) to let the sender finish
+		err = c.send(pubcomp, true)
+		if err != nil {
+			return c.die(err, false)
+		}
+
+		return nil
 	}
 
 	// call callback
@@ -725,20 +741,17 @@ func (c *Client) processPubrel(id packet.ID) error {
 		}
 	}
 
-	// prepare pubcomp packet
-	pubcomp := packet.NewPubcomp()
-	pubcomp.ID = publish.ID
+	// remove packet from store before acknowledging it, a retransmitted
+	// pubrel must not deliver the message again if the pubcomp gets lost
+	err = c.Session.DeletePacket(session.Incoming, id)
+	if err != nil {
+		return c.die(err, true)
+	}
 
 	// acknowledge Publish packet
 	err = c.send(pubcomp, true)
 	if err != nil {
 		return c.die(err, false)
-	}
-
-	// remove packet from store
-	err = c.Session.DeletePacket(session.Incoming, id)
-	if err != nil {
-		return c.die(err, true)
 	}
 
 	return nil
